@@ -1,18 +1,22 @@
-# C13 -- arbiter databases never apply or lose a conflicting write silently (single node)
+# C13 -- arbiter databases never apply or lose a conflicting write silently
 import itertools, random, re
 from nodegen import *
+import clustergen
 
 ID = "C13"
 DRIVER = "node"
-MODEL_FILES = ["Model/Base.v", "Model/Parse.v", "Model/Node.v"]
+MODEL_FILES = ["Model/Base.v", "Model/Parse.v", "Model/Node.v", "Model/Cluster.v"]
 THEOREMS = ["C13_arbiter_never_silent", "C13_conflict_notice_text", "C13_conflict_key_neq", "C13_later_writes_queue", "C13_resolve_last", "C13_resolve_pending", "C13_register_arbiter_resends", "C13_record_needs_writable_key", "C13_arbiter_scenario"]
 STRENGTH = {t: "proof-unbounded" for t in THEOREMS}
 RULE = ("exhaustive sequences (length <= 4 quick / 5 thorough) over {plain write, versioned conflicting / non-conflicting "
         "write on keys k and kk (one name contains the other), arbiter connect, arbiter disconnect, resolve the oldest/newest "
         "pending notice (echoing its op id and version)} plus seeded random sequences up to 25 steps; at the end every pending "
         "notice is resolved in order and a fresh arbiter registers; distinct = distinct canonical trace; non-trivial = at least "
-        "one conflict was queued and resolved")
-ASSUMPTIONS = ["single node (cluster cases belong to the cluster model)",
+        "one conflict was queued and resolved; cluster family c*: 2-3 node clusters with an arbiter database, the arbiter attached to the "
+        "primary or to a secondary, 1-6 plain / versioned writes to k and kk on the primary with resolves in between, random FIFO "
+        "delivery steps after every command; at the end the arbiter answers every notice and the cluster settles: nothing pending "
+        "on any node, no key left in conflict, every replica holds the primary's value")
+ASSUMPTIONS = ["families x*, r*: single node; family c*: clusters of 2-3 nodes (driver cluster), writes and the arbiter on the primary or on a secondary, random FIFO delivery orders",
                "the arbiter echoes the op id and version of the notice it answers",
                "key names without spaces; clients do not write $conflicts_ keys or version -2 themselves"]
 TRUSTED = []
@@ -62,9 +66,84 @@ WRITES = [("w", "set k p"), ("w", "set-safe k 0 c"), ("w", "set-safe k 9 n"), ("
 SYMS = WRITES + ["arb", "arbdisc", ("rsv", 0, "R0"), ("rsv", 1, "R1")]
 
 
+def driver_of(case):
+    return "cluster" if case[0].startswith("c") else "node"
+
+
+def cluster_cases(tier, rng, dist):
+    """2-3 node clusters, arbiter database d1: 1-6 writes (plain and versioned, conflicting and not) to k / kk from the primary's client, the arbiter attached to the primary or to a secondary, random FIFO delivery steps after every command;
+    at the end the arbiter answers every notice it has and the cluster settles"""
+    CC = clustergen.CC
+    out = []
+    n = {"quick": 250, "thorough": 4000, "search": 150}[tier]
+    for i in range(n):
+        nn = rng.choice([2, 3])
+        names, hdr, base = clustergen.setup(nn, "arbiter")
+        arb = rng.choice(names[:2])
+        ops = list(base) + [CC("n1", 0, "set k v0"), ["settle"], CC("n1", 0, "set k v1"), ["settle"], CC("n1", 0, "set kk w0"), ["settle"]]
+        if rng.random() < 0.85:
+            ops += [CC(arb, 1, "arbiter"), ["settle"]]
+        nw = rng.randint(1, 6)
+        for j in range(nw):
+            r = rng.random()
+            writer = "n1"      # writes issued on a secondary diverge for a reason of their own (C04's recorded finding)
+            if r < 0.65:
+                ops.append(CC(writer, 0, rng.choice(["set k p%d" % j, "set-safe k %d c%d" % (rng.choice([0, 0, 1, 2, 9]), j),
+                                                     "set-safe kk %d d%d" % (rng.choice([0, 1, 9]), j), "set kk q%d" % j])))
+            elif r < 0.8:
+                ops.append(["rsv", arb, "1", str(rng.randint(0, 3)), hexs("R%d" % j)])
+            elif r < 0.9:
+                ops.append(CC(arb, 1, "arbiter"))
+            else:
+                ops.append(CC(writer, 0, "get-safe k"))
+            if rng.random() < 0.5:
+                ops += clustergen.random_steps(rng, names, rng.randint(1, 6))
+            else:
+                ops.append(["settle"])
+        ops += [["settle"], CC(arb, 1, "arbiter"), ["settle"]]
+        # every registration re-sends the pending notices, so the arbiter's list holds duplicates: answer them all
+        for j in range(6 * (nw + 1)):
+            ops += [["rsv", arb, "1", str(j), hexs("F%d" % j)], ["settle"]]
+        ops += [["settle"], CC("n1", 0, "get-safe k"), CC("n1", 0, "get-safe kk")]
+        out.append(("c%d" % i, hdr, ops))
+    dist["cluster"] = n
+    return out
+
+
+def cluster_oracle(case, io, mo):
+    """at quiescence, after the arbiter answered every notice: nothing pending anywhere and every replica holds what the primary holds"""
+    fails = []
+    obs = clustergen.split_obs(io)
+    if len(obs) < len(case[2]):
+        return [("driver-died", "step %d" % len(obs))]
+    for i, o in enumerate(obs):
+        if o[0] == "PANIC":
+            fails.append(("panic", "step %d" % i))
+    nodes = clustergen.parse_dump(obs[-1][3])
+    if not nodes:
+        return fails + [("driver-died", "no dump")]
+    ref = nodes["n1"]["dbs"].get("d1", {"keys": {}})["keys"]
+    for name, nd in sorted(nodes.items()):
+        if nd["dead"]:
+            fails.append(("service-thread-died", "node %s" % name))
+        keys = nd["dbs"].get("d1", {"keys": {}})["keys"]
+        for key in ("k", "kk"):
+            v = keys.get(key)
+            if v is not None and v[1] == -2:
+                fails.append(("stuck-in-conflict", "end: %s on %s is still marked in conflict although the arbiter answered every notice" % (key, name)))
+            r = ref.get(key)
+            if (v is None) != (r is None) or (v is not None and v[0] != r[0]):
+                fails.append(("replica-differs", "end: %s on %s is %r, on the primary %r" % (key, name, v and v[0], r and r[0])))
+        recs = sorted(k for k, v in keys.items() if k.startswith("$conflicts_") and v[0].startswith("resolve ") and v[2] == "L")
+        if recs:
+            fails.append(("record-left-pending", "end: %s holds unresolved records %s" % (name, recs)))
+    return fails
+
+
 def gen_cases(tier, seed):
     rng = random.Random(seed)
     cases, dist = [], {"exhaustive": 0, "random": 0}
+    cases += cluster_cases(tier, random.Random(seed + 7), dist)
     maxlen, nrand = {"quick": (4, 1500), "thorough": (5, 20000), "search": (3, 1500)}[tier]
     k = 0
     for L in range(1, maxlen + 1):
@@ -92,6 +171,8 @@ def gen_cases(tier, seed):
 
 def oracle(case, io, mo):
     """FIFO-of-conflicts specification evaluated on the implementation's observations"""
+    if case[0].startswith("c"):
+        return cluster_oracle(case, io, mo)
     fails = []
     obs = split_obs(io)
     prev = {}
@@ -205,6 +286,9 @@ def oracle(case, io, mo):
 
 
 def nontrivial(case, io):
+    if case[0].startswith("c"):
+        co = clustergen.split_obs(io)
+        return any(o[0].startswith("Error $$conflitct") for o in co) and any(op[0] == "rsv" and co[i][0] == "Ok" for i, op in enumerate(case[2]) if i < len(co))
     obs = split_obs(io)
     q = any(o[0].startswith("Error $$conflitct") for o in obs)
     r = any(op[0] == "rsv" and obs[i][0] == "Ok" for i, op in enumerate(case[2]) if i < len(obs))
